@@ -1485,6 +1485,50 @@ variant("bdat-limit-operands-swapped",
   ("conn.go", "	if c.server.MaxMessageBytes != 0 && c.bytesReceived+int64(size) > c.server.MaxMessageBytes {",
    "	if c.server.MaxMessageBytes != 0 && c.server.MaxMessageBytes < int64(size)+c.bytesReceived {"))
 
+variant("null-path-slice-two",
+  ("parse.go", 'p.s = strings.TrimPrefix(p.s, "<>")', 'p.s = p.s[2:]'))
+variant("lmtp-read-error-wrapped-in-local",
+  ("client.go", """				} else {
+					return err
+				}
+			} else if d.statusCb != nil {""", """				} else {
+					ioErr := err
+					return ioErr
+				}
+			} else if d.statusCb != nil {"""))
+variant("client-deadline-clear-in-closure",
+  ("client.go", """	c.conn.SetDeadline(time.Now().Add(c.CommandTimeout))
+	defer c.conn.SetDeadline(time.Time{})
+
+	id, err := c.text.Cmd(format, args...)""", """	c.conn.SetDeadline(time.Now().Add(c.CommandTimeout))
+	defer func() {
+		c.conn.SetReadDeadline(time.Time{})
+		c.conn.SetWriteDeadline(time.Time{})
+	}()
+
+	id, err := c.text.Cmd(format, args...)"""))
+variant("hello-error-local-then-stored",
+  ("client.go", """		} else {
+			c.helloError = err
+		}
+	}
+	return c.helloError""", """		} else {
+			c.helloError = err
+			return err
+		}
+	}
+	return c.helloError"""))
+variant("serve-conn-copied-per-iteration",
+  ("server.go", """		s.wg.Add(1)
+		go func() {
+			defer s.wg.Done()
+
+			err := s.handleConn(newConn(c, s))""", """		s.wg.Add(1)
+		nc := c
+		go func() {
+			defer s.wg.Done()
+
+			err := s.handleConn(newConn(nc, s))"""))
 if sys.argv[1:] == ['--export']:
     out = [{"id": "benign-" + n, "edits": [{"file": f, "old": o, "new": w} for f, o, w in V[n]]} for n in V]
     json.dump(out, open('/verif/liveness/benign.json', 'w'), indent=1)
